@@ -74,6 +74,8 @@ def run(c):
     res2, tv, accepted, r2 = sn.record_and_validate(c, binp, "C13", ntopo=24 if thorough else 5, nmin=6, nmax=10 if thorough else 9,
                                                     pairs=8 if thorough else 5, paths=4, inject="all")
     sn.tv_report(c, tv, "C13")
+    if thorough or __import__("os").environ.get("VERIF_SELFTEST"):
+        sn.binding_selftest(c, binp, insts, __import__("os").path.join(c.work, "trace_events.ndjson"))
     if accepted:
         c.cov["traces_validated_against_impl"] = res2["injects"]
     c.cov["evaluations"] += res2["steps"]
